@@ -572,14 +572,15 @@ impl Formatter {
                 self.writer.write("]");
             }
             Type::Tuple(types) => {
-                self.writer.write("Tuple[");
+                // `(A, B)` is the tuple type syntax; `Tuple[A, B]` parses as a different (generic) type
+                self.writer.write("(");
                 for (i, t) in types.iter().enumerate() {
                     if i > 0 {
                         self.writer.write(", ");
                     }
                     self.format_type(&t.node);
                 }
-                self.writer.write("]");
+                self.writer.write(")");
             }
             Type::Function(params, return_type) => {
                 self.writer.write("(");
@@ -593,7 +594,7 @@ impl Formatter {
                 self.format_type(&return_type.node);
             }
             Type::SelfType => self.writer.write("Self"),
-            Type::Unit => self.writer.write("None"),
+            Type::Unit => self.writer.write("()"),
         }
     }
 
